@@ -258,7 +258,11 @@ def explore_replies(ctx, fn, T, depth=0):
         lo, hi, ret, excl = st
         if isinstance(pol, bool):
             res = []
-            f._decompose(cond, pol, res)
+
+            def known(node):
+                v = evc(f, node, st)
+                return v if isinstance(v, bool) else None
+            f._decompose(cond, pol, res, known)
             for c, p in res:
                 n = f.nodes[f.skip(c)]
                 if n['k'] == 'call' and isinstance(p, bool) and (f.sym(n) or {}).get('static') and (f.sym(n) or {}).get('name', '').startswith('is') \
